@@ -481,6 +481,7 @@ func RunC04(c *Ctx) {
 		}
 	}
 	idx = e.explicitRanges(idx, false)
+	idx = e.lateClockPairs(idx, cases, c.N(19, 5), false)
 	// I/O errors: a call failed by an injected error takes effect entirely or not at
 	// all, a call that still returns nil has committed exactly its transaction
 	idx = e.faultFamilies(idx, false, "", 3)
